@@ -4,6 +4,7 @@ package harness
 
 import (
 	"bytes"
+	"context"
 	"encoding/json"
 	"fmt"
 	"os"
@@ -11,6 +12,7 @@ import (
 	"path/filepath"
 	"sync"
 	"testing"
+	"time"
 
 	"pgregory.net/rapid"
 )
@@ -37,6 +39,13 @@ func genC27() *rapid.Generator[C27Scenario] {
 				s.Ops = append(s.Ops, C27Op{Op: "flush"})
 			}
 		}
+		if chance(t, "mergeable", 40) {
+			// two flushed files first and a Merge after them: the merge has a group
+			// to commit, so faults aimed at it reach the commit / cleanup paths
+			s.Ops = append([]C27Op{{Op: "ingest", Rows: 2}, {Op: "ingest", Rows: 1}}, s.Ops...)
+			at := 2 + unif(t, "mergeat", len(s.Ops)-1)
+			s.Ops = append(s.Ops[:at], append([]C27Op{{Op: "merge"}}, s.Ops[at:]...)...)
+		}
 		for i := rapid.IntRange(0, 3).Draw(t, "nfaults"); i > 0; i-- {
 			f := C27Fault{Kind: pick(t, "fk", []string{"CreateFile", "Write", "Close", "Update", "Tombstone", "OpenFile", "Read", "RClose", "Seek", "IterYield", "Tombstone", "RClose"}), N: rapid.IntRange(0, 5).Draw(t, "fn"), Op: -1}
 			if chance(t, "perop", 70) {
@@ -45,7 +54,7 @@ func genC27() *rapid.Generator[C27Scenario] {
 				f.N = rapid.IntRange(0, 3).Draw(t, "fn2")
 				switch s.Ops[f.Op].Op {
 				case "merge":
-					f.Kind = pick(t, "fkm", []string{"Tombstone", "Update", "CreateFile", "Write", "Close", "OpenFile", "Read", "RClose", "IterYield"})
+					f.Kind = pick(t, "fkm", []string{"Tombstone", "Tombstone", "Tombstone", "Update", "CreateFile", "Write", "Close", "OpenFile", "Read", "RClose", "IterYield"})
 				case "ingest", "flush", "stopwedged":
 					f.Kind = pick(t, "fki", []string{"CreateFile", "Write", "Close", "Update", "Tombstone"})
 				case "query":
@@ -89,7 +98,9 @@ func runC27Child(bin string, s C27Scenario, mode string) (stdout, stderr []byte,
 	if err := os.WriteFile(sp, b, 0o600); err != nil {
 		return nil, nil, out, err
 	}
-	cmd := exec.Command(bin, sp, rp, mode)
+	cctx, cancel := context.WithTimeout(context.Background(), 3*time.Minute)
+	defer cancel()
+	cmd := exec.CommandContext(cctx, bin, sp, rp, mode)
 	var so, se bytes.Buffer
 	cmd.Stdout, cmd.Stderr = &so, &se
 	runErr := cmd.Run()
@@ -111,7 +122,9 @@ func runC27(s C27Scenario) *Violation {
 		return violf("with no Logger configured the engine (child process) wrote %d byte(s) to stdout and %d byte(s) to stderr:\nstdout: %q\nstderr: %q", len(so), len(se), trunc(so, 600), trunc(se, 1200))
 	}
 	if runErr != nil || !out.Completed {
-		return violf("the child process running the scenario failed without output: err=%v outcome=%+v", runErr, out)
+		// silent, so not a C27 verdict: the scenario itself did not run to its end
+		infra("the child process running a scenario failed without output: err=%v outcome=%+v scenario=%s", runErr, out, jsonKey(s))
+		return nil
 	}
 	// twin run with a counting logger: were logging call sites reached?
 	_, _, logged, _ := runC27Child(bin, s, "logged")
@@ -150,7 +163,7 @@ func TestC27(t *testing.T) {
 			os.Remove(c27Bin)
 		}
 	}()
-	Ev.Rule = "case = scenario of 2-9 operations (ingest+flush, external-writer files without filter sections / with individual filters absent, bloom / match-all queries, Merge, bit-flip corruption of a stored file, a Stop with a 60 ms deadline against a pipeline wedged by an abandoned unbuffered done channel) with 0-3 one-shot store failures (CreateFile, Write, Close, Update, TombstoneFile, OpenFile, Read, Seek, reader Close, iterator), each either the N-th call of its kind in the run or the N-th call of its kind during one chosen operation (so that e.g. the tombstone after a committed merge is a likely target). Each scenario is executed by a plain child program (no test framework) whose stdout and stderr are pipes owned by the parent: both must be empty, byte for byte, with BloomSearchEngineConfig.Logger == nil. The same scenario is run a second time in the child with a counting slog.Logger. Non-trivial: the twin run logged >= 1 record at Warn level (the silent run passed through logging call sites that matter) or went through a failure path (an injected fault fired, an operation returned an error, an acknowledgement carried an error); distinct by scenario. Classes name the Warn messages and failure paths reached."
+	Ev.Rule = "case = scenario of 2-9 operations, 40% of them prefixed by two flushed ingests with a Merge inserted after them (ingest+flush, external-writer files without filter sections / with individual filters absent, bloom / match-all queries, Merge, bit-flip corruption of a stored file, a Stop with a 60 ms deadline against a pipeline wedged by an abandoned unbuffered done channel) with 0-3 one-shot store failures (CreateFile, Write, Close, Update, TombstoneFile, OpenFile, Read, Seek, reader Close, iterator), each either the N-th call of its kind in the run or the N-th call of its kind during one chosen operation (so that e.g. the tombstone after a committed merge is a likely target). Each scenario is executed by a plain child program (no test framework) whose stdout and stderr are pipes owned by the parent: both must be empty, byte for byte, with BloomSearchEngineConfig.Logger == nil. The same scenario is run a second time in the child with a counting slog.Logger. Non-trivial: the twin run logged >= 1 record at Warn level (the silent run passed through logging call sites that matter) or went through a failure path (an injected fault fired, an operation returned an error, an acknowledgement carried an error); distinct by scenario. Classes name the Warn messages and failure paths reached."
 	Ev.Assumptions = []string{"anything written by the library's dependencies to the process's stdout/stderr counts too"}
-	runChecks(t, "scenarios", 60, 1500, genC27(), runC27)
+	runChecks(t, "scenarios", 240, 6000, genC27(), runC27)
 }
